@@ -89,6 +89,10 @@ Definition enc_frame (p : fparams) (dictID : N) (bs : list eblock) : bytes :=
   ++ enc_blocks bs
   ++ (if fp_checksum p then write_le 4 (N.land (xxh64 content 0) 4294967295) else []).
 
+(* ---------- skippable frames: ZSTD_writeSkippableFrame ---------- *)
+Definition enc_skippable (variant : N) (payload : bytes) : bytes :=
+  write_le 4 (MAGIC_SKIP + variant) ++ write_le 4 (lenN payload) ++ payload.
+
 (* ---------- the store-only compressor: every chunk of [bsize] bytes becomes a raw block
    (what ZSTD_compress emits for incompressible input); the empty input gives one empty raw last block ---------- *)
 Fixpoint chunks_fuel (fuel : nat) (bsize : N) (src : bytes) : list bytes :=
